@@ -8,7 +8,7 @@ From GV Require Import Base.Ints Gen.Math Gen.Kernel Model.Mirror
   Proofs.MirrorTotal Proofs.MirrorRestart Proofs.MirrorLog
   Proofs.MirrorResumeWit Proofs.MirrorResumeLoad Proofs.MirrorResumeInv Proofs.MirrorResumeStart
   Proofs.MirrorResumeOps Proofs.MirrorResumeOps2 Proofs.MirrorResumeOps3 Proofs.MirrorResumeOps4
-  Proofs.MirrorResume.
+  Proofs.MirrorResumeOps5 Proofs.MirrorResume.
 Import ListNotations.
 Local Open Scope N_scope.
 
@@ -95,14 +95,14 @@ Qed.
 (** after a crash at a clean cut: at most one height above what the uninterrupted operation reaches *)
 Theorem crash_height_bound ih ivs s o k s1 r s' :
   1 <= ih -> vwf ivs -> reachable_g ih ivs s ->
-  step s o = Ok (s1, r) -> wf_op o r -> op_covered o -> clean_cut s o k ->
+  step s o = Ok (s1, r) -> wf_op o r -> clean_cut s o k ->
   xstep s (XCrash k o) = Ok (s', r) ->
   v_h (k_vot s) <= v_h (k_vot s') /\ v_h (k_vot s') <= v_h (k_vot s1) + 1.
 Proof.
-  intros Hih Hivs Hr Hs Hw Hcov Hcut Hx.
-  destruct (crash_stores_between ih ivs s o k s1 r Hih Hivs Hr Hs Hw Hcov Hcut) as (Q1&Q2&Q3).
+  intros Hih Hivs Hr Hs Hw Hcut Hx.
+  destruct (crash_stores_between ih ivs s o k s1 r Hih Hivs Hr Hs Hw Hcut) as (Q1&Q2&Q3).
   destruct (reachable_g_K ih ivs s Hih Hivs Hr) as [HK HT].
-  destruct (K_step _ _ _ _ _ _ HK HT Hw Hcov Hs) as (K1&_&_).
+  destruct (K_step _ _ _ _ _ _ HK HT Hw Hs) as (K1&_&_).
   pose proof (proj1 (proj1 HK)) as Hc. pose proof (proj1 (proj1 K1)) as Hc1.
   pose proof Hc as (Hi1&Hi2&_).
   cbn [xstep] in Hx. rewrite Hs in Hx. cbn [bind fst snd] in Hx. rewrite Hi1, Hi2 in Hx.
